@@ -6,7 +6,7 @@ import numpy as np
 from vlib import core, dom, rescorr
 
 ID = "C01"
-PROPS = ["C01_maxprinciple.v", "C01_matrix.v", "C04_step_system.v"]
+PROPS = ["C01_maxprinciple.v", "C01_relaxation.v", "C01_matrix.v", "C04_step_system.v"]
 GEN = ["reservoir"]
 TOL = 1e-9
 
@@ -40,6 +40,31 @@ def conclusions(case, impl):
             out.append(dict(what="simulated value outside [lowest frac-face pseudopressure so far, initial pseudopressure]",
                             step=i, node=j, value=float(f[i, j]), lower=float(lo), upper=hi))
             break
+    if const and nt > 1:
+        # conclusion of C01_single_phase_relaxes / C01_ideal_relaxes: the excess over the frac-face value is bounded
+        # by (m_i - m_f)/(2 nx) * phi_j * prod_i n(n+1)/(n(n+1) + 2 mesh_i amin), phi_j = j (2n+1-j)
+        if case["kind"] == "ideal":
+            amin = 1.0
+        else:
+            a = np.asarray(impl["fp"].pvt_props["alpha"], float)
+            amin = float(a.min() / impl["fp"].alpha(impl["fp"].m_i))
+        jj = np.arange(1, nx + 1, dtype=float)
+        phi = jj * (2 * nx + 1 - jj)
+        pm = nx * (nx + 1.0)
+        cb = (hi - g) / (2.0 * nx)
+        tt = np.asarray(case["times"], float)
+        # 1/dx^2 as the code computes it: linspace(0, 1, nx) for the ideal reservoir, (1/nx)^2 for the single-phase one
+        inv_dx2 = float(nx - 1) ** 2 if case["kind"] == "ideal" else float(nx) ** 2
+        if amin > 0 and np.isfinite(amin) and hi >= g and inv_dx2 > 0:
+            for i in range(1, nt):
+                cb *= pm / (pm + 2.0 * (tt[i] - tt[i - 1]) * inv_dx2 * amin)
+                ex = f[i] - g - cb * phi * (1 + 1e-9)
+                if ex.max() > TOL * scale:
+                    j = int(np.argmax(ex))
+                    out.append(dict(what="excess over the frac-face value above the proved relaxation bound",
+                                    key="relax-bound", step=i, node=j, value=float(f[i, j]), frac=g,
+                                    bound=float(g + cb * phi[j]), amin=amin))
+                    break
     if const:
         d = np.diff(f[1:], axis=1)
         if d.size and d.min() < -TOL * scale:
@@ -55,7 +80,9 @@ def conclusions(case, impl):
             # node 1 and dies out within a few nodes (the frac-face row restarts node 0 from m_f every step)
             js = np.nonzero(dt_[i] > TOL * scale)[0]
             prefix = len(js) <= 5 and list(js) == list(range(len(js))) and np.all(np.diff(dt_[i, js]) <= 0)
-            k3 = case["kind"] == "single" and i >= 1 and steps[i] > steps[i - 1] and prefix
+            # ... and the bump keeps moving inward during the step that follows the increase
+            grew = i >= 1 and (steps[i] > steps[i - 1] or (i >= 2 and steps[i - 1] > steps[i - 2]))
+            k3 = case["kind"] == "single" and grew and prefix
             j = int(js[np.argmax(dt_[i, js])])
             out.append(dict(what="value rose in time beyond the node next to the fracture under constant drawdown",
                             key="time-monotone" if k3 else "time-monotone-other", step=int(i), node=j + 1,
